@@ -48,7 +48,7 @@ def gen_req(rng, nodes, tok):
     elif k < 0.84:
         path = "/" + "/".join(rng.choice(["new.txt", "d/new.gmi", "a/b/c.txt", "sub/x", "é.txt", "sp ace.txt", "up%20load.txt", "..", ".", ""]) for _ in range(rng.randint(1, 2)))
     else:
-        path = rng.choice(["/", "", "/../rootx/planted.txt", "/../outside/planted.txt", "/%2e%2e/outside/p.txt", "/..%2Foutside%2Fp.txt", "//etc/passwd", "/\x00x", "/" + "n" * 300])
+        path = rng.choice(["/cache/titan://example.org/page.gmi", "/titan://h/x", "/a/gemini://b/c.txt", "/", "", "/../rootx/planted.txt", "/../outside/planted.txt", "/%2e%2e/outside/p.txt", "/..%2Foutside%2Fp.txt", "//etc/passwd", "/\x00x", "/" + "n" * 300])
     used = set(rel for rel, kk, pp in nodes)
     extra = [e for e in extra if e[0] not in used]
     size = rng.choice([0, 0, 1, 3, MAXSZ - 1, MAXSZ, MAXSZ + 1])
@@ -143,7 +143,15 @@ def run(tier, seed):
                 # physically, after following a symlinked directory, is not what a URL path means: it made this referee
                 # disagree with a correct upload to /pub/<link>/x/../../new/file - a false alarm of the thorough tier.)
                 try:
-                    dec_path = unquote(req.path)
+                    # the path the CLIENT sent (not what from_line made of it: the parser is under test too)
+                    # (Titan: "titan://" authority path-abempty *( ";" param ): the path ends at the first ";", "?" or "#")
+                    rest_ = line[len("titan://"):]
+                    cut_ = min([rest_.index(ch_) for ch_ in "/?#;" if ch_ in rest_] or [len(rest_)])
+                    after_ = rest_[cut_:]
+                    for ch_ in ";?#":
+                        after_ = after_.split(ch_, 1)[0]
+                    wire_path = after_ or "/"
+                    dec_path = unquote(wire_path)
                     segs, climbs = [], False
                     for sg_ in dec_path.split("/"):
                         if sg_ in ("", "."): continue
@@ -158,7 +166,10 @@ def run(tier, seed):
                 except (OSError, ValueError):
                     target = []
                 cfg = [fstree.comps(up), MAXSZ, [types_] if types_ else [], tokens or [], delete]
-                mreq = [req.path, req.size, req.mime_type, [req.token] if req.token is not None else [], content]
+                mreq = [wire_path, req.size, req.mime_type, [req.token] if req.token is not None else [], content]
+                if req.path != wire_path:
+                    res.violations.append({"clause": "the handler receives the path that was sent", "signature": "C14:path-altered",
+                                           "case": {"request_line": line[:200]}, "trace": {"path_on_the_wire": wire_path, "request.path": req.path}})
                 base = fstree.comps(real_tmp)
                 ancestors = [[base[:i], ["d"]] for i in range(1, len(base) + 1)]
                 effective_fault = bool(fault) and not (fault[0] == "rlimit" and fault[1] >= len(content))
